@@ -125,8 +125,17 @@ var plans = map[string]*Plan{}
 var warmups []func()
 
 func RegisterWarmup(f func()) { warmups = append(warmups, f) }
-func Warmup() {
+
+var warmupsFor = map[string][]func(){}
+
+// RegisterWarmupFor: a warm-up that only processes working on the given property run (costly ones)
+func RegisterWarmupFor(prop string, f func()) { warmupsFor[prop] = append(warmupsFor[prop], f) }
+
+func Warmup(prop string) {
 	for _, f := range warmups {
+		f()
+	}
+	for _, f := range warmupsFor[prop] {
 		f()
 	}
 }
